@@ -128,9 +128,16 @@ impl BuildJob<'_> {
         let lock = self.lock;
 
         let newstamp = sf.read_stamp(ptx.state().env())?;
+        // A record can be marked as generated without having a stamp: a build
+        // whose script ran redo-stamp was killed before its result was
+        // recorded.  Whatever file is there now was not produced by us.
         if sf.is_generated()
             && !newstamp.is_missing()
-            && (sf.is_override || Stamp::detect_override(sf.stamp.as_ref().unwrap(), &newstamp))
+            && (sf.is_override
+                || sf
+                    .stamp
+                    .as_ref()
+                    .map_or(true, |old| Stamp::detect_override(old, &newstamp)))
         {
             let nice_t = nice(ptx.state().env(), &t).map_err(RedoError::opaque_error)?;
             state::warn_override(&nice_t);
